@@ -11,6 +11,7 @@ import (
 	"runtime/debug"
 	"sort"
 	"strings"
+	"testing/synctest"
 	"time"
 
 	"github.com/theory/sqljson/path"
@@ -264,6 +265,7 @@ type task struct {
 	inFlight *OpSpec
 	results  []*Outcome
 	panicked string
+	blocked  bool // released, but waiting inside the library (not parked)
 }
 
 // releaseContexts cancels every context the listed outcomes still hold.
@@ -393,6 +395,10 @@ func (w *world) execOp(op OpSpec, tk *task, fresh bool) *Outcome {
 	if op.Vars >= 0 {
 		opts = append(opts, exec.WithVars(w.vars[op.Vars]))
 	}
+	if op.Vars2 > 0 {
+		// A second WithVars replaces the first (options apply in order).
+		opts = append(opts, exec.WithVars(w.vars[op.Vars2-1]))
+	}
 	if op.Silent {
 		opts = append(opts, exec.WithSilent())
 	}
@@ -419,6 +425,7 @@ func (w *world) execOp(op OpSpec, tk *task, fresh bool) *Outcome {
 	case "existsormatch":
 		ret, err = p.ExistsOrMatch(ctx, doc, opts...)
 	}
+	out.ret = ret
 	if ret == "noitems" {
 		out.Raw, out.Ranked = "<nil>", "<nil>"
 	} else {
@@ -477,13 +484,20 @@ type RunStats struct {
 	Unobservable   int            `json:"unobservable"`
 	DSTCrossed     int            `json:"dst_crossed"`
 	GCBetweenKV    int            `json:"gc_between_kv"`
+	BlockedInLibrary int          `json:"blocked_in_library"`
 }
 
 func newRunStats() *RunStats {
 	return &RunStats{FaultsFired: map[string]int{}, ConcPairs: map[string]int{}, FireStacks: map[string]int{}, NodeKinds: map[string]int{}}
 }
 
+type changedResult struct {
+	task, op      int
+	before, after string
+}
+
 type runResult struct {
+	changed  []changedResult
 	outcomes [][]*Outcome // [task][op]
 	log      bytes.Buffer // event log (fingerprint input)
 	stats    *RunStats
@@ -517,11 +531,55 @@ func (w *world) runConcurrent() *runResult {
 		w.noteArrival(t, res)
 	}
 
+	logf := func(format string, a ...any) { fmt.Fprintf(&res.log, format, a...) }
+	// collect waits for a released task to park again. A task that instead
+	// blocks inside the library (waiting for another caller that is parked)
+	// is detected by the fake clock: it only advances when every goroutine
+	// of the bubble is durably blocked, so the timeout fires exactly then.
+	// Sleeps the simulator itself makes (deadline faults, 2 s) are shorter.
+	const blockedAfter = 30 * time.Second
+	timer := time.NewTimer(time.Hour)
+	timer.Stop()
+	collect := func(t *task) {
+		timer.Reset(blockedAfter)
+		select {
+		case t.cur = <-t.parkCh:
+			timer.Stop()
+			t.blocked = false
+			w.noteArrival(t, res)
+		case <-timer.C:
+			t.blocked = true
+			res.stats.BlockedInLibrary++
+		}
+	}
+	// pollBlocked picks up tasks that were blocked and have parked since.
+	pollBlocked := func() {
+		any := false
+		for _, t := range tasks {
+			any = any || t.blocked
+		}
+		if !any {
+			return
+		}
+		synctest.Wait()
+		for _, t := range tasks {
+			if !t.blocked {
+				continue
+			}
+			select {
+			case t.cur = <-t.parkCh:
+				t.blocked = false
+				w.noteArrival(t, res)
+				logf("unblocked t%d\n", t.id)
+			default:
+			}
+		}
+	}
+
 	var ballast [][]byte
 	kvSeen := false
 	winIdx := 0
 	rr := 0
-	logf := func(format string, a ...any) { fmt.Fprintf(&res.log, format, a...) }
 	logf("start %s mode=%s tasks=%d\n", time.Now().UTC().Format(time.RFC3339Nano), sc.Mode, len(tasks))
 
 	for {
@@ -540,7 +598,14 @@ func (w *world) runConcurrent() *runResult {
 			winIdx++
 		} else {
 			// Schedule exhausted: round-robin, one task per window.
-			for tasks[rr%len(tasks)].done {
+			runnable := false
+			for _, t := range tasks {
+				runnable = runnable || (!t.done && !t.blocked)
+			}
+			if !runnable {
+				panic(harnessf("every remaining task is blocked inside the library: the simulator cannot make progress"))
+			}
+			for tasks[rr%len(tasks)].done || tasks[rr%len(tasks)].blocked {
 				rr++
 			}
 			win = Window{Tasks: []int{rr % len(tasks)}}
@@ -590,7 +655,7 @@ func (w *world) runConcurrent() *runResult {
 		seen := map[int]bool{}
 		var members []*task
 		for _, id := range win.Tasks {
-			if !seen[id] && !tasks[id].done {
+			if !seen[id] && !tasks[id].done && !tasks[id].blocked {
 				seen[id] = true
 				members = append(members, tasks[id])
 			}
@@ -623,9 +688,18 @@ func (w *world) runConcurrent() *runResult {
 			close(t.cur.release)
 		}
 		for _, t := range members {
-			t.cur = <-t.parkCh
-			w.noteArrival(t, res)
+			collect(t)
 		}
+		pollBlocked()
+		parked := members[:0:0]
+		for _, t := range members {
+			if t.blocked {
+				logf("w%d t%d blocked inside the library\n", res.stats.Windows, t.id)
+			} else {
+				parked = append(parked, t)
+			}
+		}
+		members = parked
 
 		// Event log and reach probes.
 		logf("w%d", res.stats.Windows)
@@ -667,6 +741,18 @@ func (w *world) runConcurrent() *runResult {
 		}
 	}
 	res.stats.SimNanos = time.Since(t0).Nanoseconds()
+	// What a call returned belongs to its caller: it must still read the
+	// same after every other call has finished (no buffer shared with the
+	// document or with later calls).
+	for _, t := range tasks {
+		for oi, o := range t.results {
+			if o.ret != nil && o.ret != "noitems" && o.Panic == "" {
+				if now := renderValue(o.ret, false); now != o.Raw {
+					res.changed = append(res.changed, changedResult{t.id, oi, o.Raw, now})
+				}
+			}
+		}
+	}
 	for _, t := range tasks {
 		releaseContexts(t.results)
 	}
